@@ -356,6 +356,11 @@ func main() {
 		os.Exit(runCheck(prop, *tier, *workers, *only, *noReplay))
 	case "selftest":
 		os.Exit(selftest())
+	case "replay":
+		if len(os.Args) < 4 {
+			fatal(2, "usage: vengine replay <PROP> <cex.json>")
+		}
+		os.Exit(replayFile(os.Args[2], os.Args[3]))
 	default:
 		fatal(2, "unknown command %s", os.Args[1])
 	}
